@@ -388,6 +388,19 @@ def _stepper_to_hamiltonian(ctx, C, entry: FuncInfo, role_of: dict) -> None:
                        "the vector exponentiated is the stepper's state argument" if oks else
                        f"krylov_exp acts on {show(st)[:60]}", entry=entry.qualname)
     ctx.require(n >= 1, f"ROLE-sv: no Hamiltonian constructor reached from {entry.qualname}")
+    # no path bypasses the exponentiation: the state component of every returned value is krylov_exp(...)'s result
+    bypass = []
+    for p in paths:
+        rv = strip_typed(p.retval)
+        first = strip_typed(rv[1][0]) if rv[0] == "tuple" and rv[1] else rv
+        if not contains(first, lambda t: t[0] == "call" and t[1] == "emu_base.math.krylov_exp.krylov_exp"):
+            conds = "; ".join(f"{show(c)[:50]}={t}" for c, t in p.cond_log)
+            bypass.append(f"[{conds}] returns {show(first)[:60]}")
+    ctx.ob("STEP-sv", f"{C.name} every path exponentiates", entry.loc(), not bypass,
+           f"every path of {C.name}.{entry.name} returns exp(−i·dt·G)·state computed by krylov_exp" if not bypass else
+           f"{C.name}.{entry.name} has a path that returns without exponentiating: {bypass[0]} — the interaction and "
+           f"detuning terms act even when a drive is zero, so the state is not constant on such a step",
+           entry=entry.qualname)
     # exponent: the callable handed to krylov_exp is x ↦ -1j * dt * (H x)
     gens = set()
     for p in paths:
